@@ -154,6 +154,13 @@ def mkPlug (comps : List (Nat × Graph Bumps)) : Plug Pins Bumps :=
     noBumps := []
     isEmpty := fun bs => bs.isEmpty }
 
+/-- the commit times of the parent history `h` are inside the component cut-off window: every component with reported
+builds has a `min_rbuild_timestamp`, and every commit of `h` is younger than that time minus
+`_CHECK_COMPONENTS_CUTOFF_PERIOD` (so the component stays relevant along every path of the DFS) -/
+def CompWindow (comps : List (Nat × Graph Bumps)) (h : Hist Pins) : Prop :=
+  ∀ cg ∈ relevantComps comps, ∃ m, cg.2.minTs = some m ∧
+    ∀ (c : Nat) (cm : Commit Pins), h.commits[c]? = some cm → m < cm.time + Gen.Ghist.componentsCutoff
+
 /-! ## `included_at` -/
 
 /-- `known_iids` of `ComponentBump.get_rbuilds_in_bump` : the builds of the previous versions with all the builds
